@@ -367,8 +367,23 @@ pub static VCLOCK_NOW: std::sync::atomic::AtomicU64 = std::sync::atomic::AtomicU
 pub static VCLOCK_TICK: std::sync::atomic::AtomicU64 = std::sync::atomic::AtomicU64::new(0);
 pub static VCLOCK_READS: std::sync::atomic::AtomicU64 = std::sync::atomic::AtomicU64::new(0);
 
+/// virtual wall clock (backups, file ids): when on, every `clock_gettime(CLOCK_REALTIME)` returns
+/// the virtual time (microseconds) and advances it by one microsecond
+pub static WALL_ON: std::sync::atomic::AtomicBool = std::sync::atomic::AtomicBool::new(false);
+pub static WALL_US: std::sync::atomic::AtomicU64 = std::sync::atomic::AtomicU64::new(0);
+
+pub fn wall_secs() -> u64 {
+    WALL_US.load(Ordering::SeqCst) / 1_000_000
+}
+
 #[no_mangle]
 pub unsafe extern "C" fn clock_gettime(clk: libc::clockid_t, ts: *mut libc::timespec) -> c_int {
+    if clk == libc::CLOCK_REALTIME && WALL_ON.load(Ordering::SeqCst) && !ts.is_null() {
+        let now = WALL_US.fetch_add(1, Ordering::SeqCst);
+        (*ts).tv_sec = (now / 1_000_000) as libc::time_t;
+        (*ts).tv_nsec = ((now % 1_000_000) * 1000) as libc::c_long;
+        return 0;
+    }
     if clk == libc::CLOCK_MONOTONIC && VCLOCK_ON.load(Ordering::SeqCst) && !ts.is_null() {
         let tick = VCLOCK_TICK.load(Ordering::SeqCst);
         let now = VCLOCK_NOW.fetch_add(tick, Ordering::SeqCst);
